@@ -92,6 +92,7 @@ var worldSeq int
 
 func NewWorld(cfg Cfg, keys []string) *World {
 	worldSeq++
+	vsync.PoolFIFO = cfg.Pool == 1
 	root := filepath.Join(scratchRoot(), fmt.Sprintf("w%d", worldSeq))
 	os.RemoveAll(root)
 	os.MkdirAll(root, 0o755)
